@@ -489,7 +489,8 @@ def evalReadouts : List (Name × Fn) → Env → Except Err Env
     evalReadouts rest (env.set k v)
 
 /-- `_get_args` including the final `args.pop(data)`: what `get_args`, `get_right_hand_side` and `__call__`
-    all work with (a state-dependent coefficient that names a data set therefore raises KeyError) -/
+    all work with.  (Since the repair of F-C01-2 state-dependent coefficients are evaluated over
+    `args | data`, so the derivative entry points hand `dep ++ c.data` to `rhsFromArgs`.) -/
 def rawArgs (c : Content) (cache : Cache) (vars : List (Name × Rat)) (t : Rat) : Except Err Env := do
   let env ← getArgsEnv c cache vars t
   pure (env.filter (fun kv => !(omKeys c.data).contains kv.1))
@@ -514,7 +515,7 @@ def answer (c : Content) (cache : Cache) : Query → Except Err Ans
     pure (.assoc l)
   | .rhs vals t => do
     let dep ← rawArgs c cache (stateOf c cache vals) t
-    let d ← rhsFromArgs cache (omKeys c.vars) dep
+    let d ← rhsFromArgs cache (omKeys c.vars) (dep ++ c.data)
     pure (.assoc d)
   | .call t vals =>
     let xs := (cycle vals 0 (omKeys c.vars)).map (·.2)
@@ -522,7 +523,7 @@ def answer (c : Content) (cache : Cache) : Query → Except Err Ans
       .error (.valueError "zip() argument lengths differ")
     else do
       let dep ← rawArgs c cache (cache.varNames.zip xs) t
-      let dxdt ← rhsFromArgs cache cache.varNames dep
+      let dxdt ← rhsFromArgs cache cache.varNames (dep ++ c.data)
       let l ← cache.varNames.mapM fun k => Env.get dxdt k
       pure (.rats l)
 
